@@ -831,6 +831,10 @@ def r_surface(ctx: Ctx, rule: str):
     loops = [n for n in ast.walk(f.node) if isinstance(n, ast.For)]
     lp = next((l for l in loops if ast.unparse(l.iter).replace(" ", "") in ("getmembers(cls)", "inspect.getmembers(cls)")), None)
     rep.ob(rule, "every member of the class is considered (getmembers)", lp is not None, func=f, construct=loops[0] if loops else "(no loop)")
+    if lp is not None:
+        early = [n for n in ast.walk(lp) if isinstance(n, (ast.Break, ast.Return))]
+        rep.ob(rule, "the enumeration does not stop early (a member that is neither a function nor a property is skipped, not the rest of the class)", not early, func=f,
+               construct=early[0] if early else "no break/return in the members loop")
     d = f.param_default("public_only")
     rep.ob(rule, "public_only defaults to True", isinstance(d, ast.Constant) and d.value is True, func=f, construct=f"public_only={ast.unparse(d) if d is not None else None}")
     d = f.param_default("member_arg_name")
